@@ -220,6 +220,22 @@ def check(res, tier):
             if not only_leak_after_error and len(res.violations) < 8:
                 res.violation("asan:%s" % lab, "%s: AddressSanitizer / UBSan / LeakSanitizer report" % lab,
                               {"files": files, "program": files.get("main.ddp"), "config": asan.name(), "implementation": r.as_dict()})
+    # who owns an argument and a result is decided differently at -O 2 (parameters judged constant are only borrowed): every row of
+    # the aliasing matrix that is about calls and returns runs under the ledger at -O 2 in every tier, unsampled
+    if quick:
+        o2 = pipeline.Config(opt=2, ledger=True)
+        callrows = [("alias:" + lab, evalcorr.files_of(p)) for lab, p in C08.programs()
+                    if any(k_ in lab for k_ in ("-arg", "return", "recursive", "silent", "readonly", "part-ref", "forwarded"))]
+        for (lab, files), r in zip(callrows, pipeline.farm(ddp, [(f, o2, {}) for _, f in callrows])):
+            res.evaluations += 1
+            st["ledger-O2:" + r.cls] += 1
+            why = judge_heap(res, lab, r, None, st, files)
+            if why is None and r.cls in ("ok", "laufzeitfehler"):
+                res.nontrivial("O2:" + ":".join(lab.split(":")[1:4]))
+            if why and len(res.violations) < 6:
+                res.violation("heap:%s:%s" % (lab, o2.name()), "%s (%s): %s" % (lab, o2.name(), why),
+                              {"files": files, "program": files.get("main.ddp"), "config": o2.name(), "implementation": r.as_dict(),
+                               "ledger_tail": (r.ledger or "")[-600:]})
     # the instrument: C ledger vs Lean ledger, on the recorded traces and on mutated ones
     reqs, want = [], []
     tmpdir = os.path.join(CACHE, "work")
